@@ -189,6 +189,7 @@ def empty_stack_bfs(RP, w, cap=6, max_configs=20000):
     seen = {start}
     dq = deque([start])
     n = len(w)
+    pruned = False
     while dq and len(seen) < max_configs:
         (p, i, st) = dq.popleft()
         if i == n and p in set(F) and not st:
@@ -208,12 +209,13 @@ def empty_stack_bfs(RP, w, cap=6, max_configs=20000):
             if v is not None:
                 s1 = s1 + (v,)
             if len(s1) > cap:
+                pruned = True          # a computation through a higher stack was not followed: 'not found' is then no answer
                 continue
             c = (q, j, s1)
             if c not in seen:
                 seen.add(c)
                 dq.append(c)
-    return None if dq else False
+    return None if (dq or pruned) else False
 
 
 def install(rec):
